@@ -184,8 +184,23 @@ C19Viol(o, act, o2) ==
               k <= ft2 /\ o2.bl[k] # SubSeq(C2, k + 2, ft2 + 1)
         THEN {"BacklogExact"} ELSE {})
 
+\* C08, multi-store operations: after a crash between two store calls of a
+\* reorganisation / rollback / batch write and the restart that follows, both
+\* stores are readable, the block chain is still a valid chain with agreeing
+\* lookups, the filter-header chain is not ahead of it and every filter header
+\* still belongs to the block at its height.
+RecoverViol(act, o2) ==
+  IF act.res # "ok" \/ ~Readable(o2) THEN {"CrashRecoverOpens"}
+  ELSE (IF ChainValidP(Chain(o2)) /\ LookupsAgreeP(o2) THEN {} ELSE {"CrashChainIntact"})
+       \cup (IF /\ o2.f.tip[1] >= 0 /\ o2.f.tip[2] >= 0 /\ o2.f.tip[2] <= o2.b.tip[2]
+                /\ \A h \in 1..Len(o2.f.byH) :
+                      IF h <= o2.f.tip[2] + 1 THEN o2.f.byH[h] = o2.b.byH[h] ELSE o2.f.byH[h] = NF
+             THEN {} ELSE {"CrashFilterConsistent"})
+
 Viol(a, o, act, a2, o2) ==
-  IF act.res = "panic" THEN {"HandlerPanicked"}
+  IF act.res = "crash" THEN {}               \* the process is dead: nothing to observe
+  ELSE IF act.op = "Recover" THEN RecoverViol(act, o2)
+  ELSE IF act.res = "panic" THEN {"HandlerPanicked"}
   ELSE C01Viol(o2) \cup C02Viol(o, act, o2) \cup C19Viol(o, act, o2)
 
 EndViol(a, o) == {}
